@@ -9,7 +9,7 @@
 From Coq Require Import List NArith ZArith.
 Require mathcomp.algebra.mxalgebra mathcomp.algebra.matrix mathcomp.algebra.rat.
 Require SK.lib.RankBridge SK.proof.C19_Rank SK.proof.C19_ClassRank SK.proof.C19_Nullity.
-From SK Require Import lib.Reach model.C17_Model model.C19_Model model.C19_Api model.C19_Fast model.C17_NodeModel model.C19_Nodes proof.C19_FastProof proof.C19_ApiProof proof.C19_NodesProof proof.C17_Proof proof.C19_Proof proof.C19_Complexes proof.C19_Linkage proof.C19_Regular proof.C19_DefOne.
+From SK Require Import lib.Reach model.C17_Model model.C19_Model model.C19_Api model.C19_Text model.C19_Fast model.C17_NodeModel model.C19_Nodes proof.C19_FastProof proof.C19_TextProof proof.C19_ApiProof proof.C19_NodesProof proof.C17_Proof proof.C19_Proof proof.C19_Complexes proof.C19_Linkage proof.C19_Regular proof.C19_DefOne.
 Import ListNotations.
 
 (** (1) complexes = the distinct reactant and product multisets: the list has no duplicate, a vector is in it iff it is
@@ -610,3 +610,13 @@ Theorem C19_routes_are_scripts : forall (style : nat) (x : hist_step) (st : ast)
   to_old (run_calls default_opts (script_of style x) st) = route style x (to_old st).
 Proof. exact routes_are_scripts. Qed.
 Print Assumptions C19_routes_are_scripts.
+
+(** (42) the text views (model/C19_Text.v; explain() and __repr__ are part of the dump compared after every call of a script):
+         f"{int}" is the decimal printer dec_Z — reading the digits back gives the integer, so equal texts mean equal numbers; the
+         digits of dec_N are digits; two __repr__ texts are equal only for equal deficiencies. *)
+Theorem C19_text :
+  (forall z, val_Z (dec_Z z) = z) /\ (forall z1 z2, dec_Z z1 = dec_Z z2 -> z1 = z2) /\
+  (forall n d, In d (dec_N n) -> (48 <= d < 58)%N) /\
+  (forall s1 s2, repr_str (Some s1) = repr_str (Some s2) -> deficiency s1 = deficiency s2).
+Proof. exact text_spec. Qed.
+Print Assumptions C19_text.
